@@ -24,6 +24,8 @@ class UnknownCommand(Exception):
 def _enc(v) -> bytes:
     if v is None:
         return b"$-1\r\n"
+    if v is NIL_ARRAY:
+        return b"*-1\r\n"
     if isinstance(v, _Status):
         return b"+" + v.s + b"\r\n"
     if isinstance(v, _Err):
@@ -52,6 +54,7 @@ class _Err:
         self.s = s
 
 
+NIL_ARRAY = object()
 OK = _Status(b"OK")
 QUEUED = _Status(b"QUEUED")
 PONG = _Status(b"PONG")
@@ -61,6 +64,10 @@ def _fmt_score(x: float) -> bytes:
     if x == int(x) and abs(x) < 1e17:
         return str(int(x)).encode()
     return repr(x).encode()
+
+
+WRITE_CMDS = {b"SET", b"DEL", b"HSET", b"HSETNX", b"HDEL", b"LPUSH", b"RPUSH", b"LREM", b"LPOP", b"RPOP", b"ZADD", b"ZREM",
+              b"FLUSHDB"}
 
 
 class SimRedis:
@@ -75,6 +82,8 @@ class SimRedis:
         self.conn_seq = 0
         self.ncmds = 0
         self.on_command = None  # hook(conn_id, args) before execution
+        self.ver: dict[bytes, int] = {}  # bumped by every write command naming the key (WATCH support)
+        self.watch_aborts = 0
 
     def start(self) -> None:
         loop = self.sim.loop
@@ -91,6 +100,7 @@ class SimRedis:
         if e is not None and self._now_us() >= e:
             self.data.pop(k, None)
             self.expiry.pop(k, None)
+            self.ver[k] = self.ver.get(k, 0) + 1
 
     def _get(self, k: bytes, typ: str):
         self._expire_check(k)
@@ -123,6 +133,10 @@ class SimRedis:
         fn = getattr(self, "cmd_" + name.decode().lower(), None)
         if fn is None:
             raise UnknownCommand(name.decode())
+        if name in WRITE_CMDS:
+            # over-approximation of Redis' "key was touched": every write command naming the key counts
+            for k in (a[1:] if name == b"DEL" else a[1:2]):
+                self.ver[k] = self.ver.get(k, 0) + 1
         try:
             return fn(a)
         except RedisError as e:
@@ -536,6 +550,7 @@ class _RedisConn(asyncio.Protocol):
         self.multi: list | None = None
         self.multi_err = False
         self.transport = None
+        self.watched: dict[bytes, int] = {}
 
     def connection_made(self, transport):
         self.transport = transport
@@ -597,6 +612,18 @@ class _RedisConn(asyncio.Protocol):
                 reply = OK
             elif name == b"DISCARD":
                 self.multi = None
+                self.watched.clear()
+                reply = OK
+            elif name == b"WATCH":
+                if self.multi is not None:
+                    reply = _Err(b"ERR WATCH inside MULTI is not allowed")
+                else:
+                    for k in a[1:]:
+                        srv._expire_check(k)
+                        self.watched.setdefault(k, srv.ver.get(k, 0))
+                    reply = OK
+            elif name == b"UNWATCH":
+                self.watched.clear()
                 reply = OK
             elif name == b"EXEC":
                 if self.multi is None:
@@ -604,8 +631,16 @@ class _RedisConn(asyncio.Protocol):
                 elif self.multi_err:
                     self.multi = None
                     reply = _Err(b"EXECABORT Transaction discarded because of previous errors.")
+                elif any(srv.ver.get(k, 0) != v for k, v in self.watched.items()):
+                    self.multi = None
+                    self.watched.clear()
+                    srv.watch_aborts += 1
+                    reply = NIL_ARRAY
+                    if srv.log_enabled:
+                        srv.log.append((srv.sim.clock.us, self.cid, "EXEC-ABORTED-BY-WATCH", [], None))
                 else:
                     q, self.multi = self.multi, None
+                    self.watched.clear()
                     reply = [srv.execute(c) for c in q]
                     if srv.log_enabled:
                         srv.log.append((srv.sim.clock.us, self.cid, "EXEC",
